@@ -1,11 +1,61 @@
-(* C04  Servers stop cancelled work and cancellation cascades.  Statements only. *)
+(* C04  Servers stop cancelled work and cancellation cascades.
+   Statements only.  Proofs: coq/ServerState.v, coq/ServerChainProofs.v, coq/ServerWitness.v.
+
+   (a) cancel_stops, state form (every transport, every state): a Cancel for a tracked id sets
+       the abort flag of that request's handle, forgets the request (in-flight count drops) and
+       removes its timer; an execute() whose handle is aborted never polls its handler again and
+       buffers no response; a queued response for an untracked id is dropped (C08).
+   (b) cancel_unknown_frame: a Cancel for an untracked id leaves the state unchanged.
+   (c) cascade, C04_cascade_partial: over the abstract composition of an n-node chain, by
+       induction on the depth; the two client-side facts are hypotheses of the Section (to be
+       discharged from the client lemmas), the server-side fact is (a) together with the waker
+       contract of AbortHandle::abort (assumed, DESIGN section 4).  REAL chains of depth 1..3 are
+       run and checked on every run (part `chain` of the check).
+   The hypothesis reuse_only_after_completion (B1) is necessary: _refuted witness.
+   NOT yet proved as a theorem (checked by the monitor on every run):
+     C04_monitor : forall c t0 ops, c04_ok c ops (fst (srun c t0 ops)) = true
+   (after the op in which Cancel id is read no later OHPolled for that incarnation and no
+   response bearing id until a new request with that id is accepted). *)
 From Coq Require Import List Bool Arith NArith.
 Import ListNotations.
-From TarpcV Require Import Base Transport TimerWheel Server ServerMon ServerWitness.
+From TarpcV Require Import Base Transport TimerWheel Server ServerMon ServerWitness ServerState
+     ServerChain ServerChainProofs.
 
-(* B1: the hypothesis reuse_only_after_completion is necessary.  `Req 1; handler done, response
-   queued, sink not ready; Cancel 1; Req 1` makes the channel answer the second request with the
-   first handler's value and leaves the second handler running untracked. *)
+Theorem C04_cancel_stops_tracked :
+  forall (T : Type) id (s : @sstate T) e,
+    find_entry id s = Some e ->
+    In (e_h e) (s_aborted (cancel_request id s))
+    /\ tracked id (cancel_request id s) = false
+    /\ length (s_inflight (cancel_request id s)) < length (s_inflight s)
+    /\ s_timers (cancel_request id s) = drop_timer id (s_timers s).
+Proof. exact (@cancel_tracked_effect). Qed.
+
+Theorem C04_aborted_never_progresses :
+  forall (T : Type) k hs (s : @sstate T) hr,
+    nth_error (s_handlers s) k = Some hr -> In (h_h hr) (s_aborted s) ->
+    let '(s', l) := execute_poll k hs s in
+    ~ In (OHPolled k) l /\ s_respq s' = s_respq s /\ (forall b, ~ In (OHDone k b) l).
+Proof. exact (@aborted_stops). Qed.
+
+Theorem C04_cancel_unknown_frame :
+  forall (T : Type) id (s : @sstate T), tracked id s = false -> cancel_request id s = s.
+Proof. exact (@cancel_untracked_frame). Qed.
+
+(* (c) cascade over the abstract composition (see ServerChainProofs.v for the hypotheses) *)
+Theorem C04_cascade_partial :
+  forall (status : nat -> hfinal) (n : nat) (abandoned cancel_read : nat -> Prop),
+    (forall i, 1 <= i -> status (S i) <> HNotStarted -> status i <> HNotStarted) ->
+    (forall i, 1 <= i -> i < n -> status i = HFinished -> status (S i) = HFinished) ->
+    (* client-side fact 1: dropping a handler drops (abandons) its outstanding call *)
+    (forall i, 1 <= i -> i < n -> status i = HDroppedF -> status (S i) <> HNotStarted -> abandoned (S i)) ->
+    (* client-side fact 2 (C03 d): an abandoned, transmitted call is cancelled on the wire *)
+    (forall i, 1 <= i -> i <= n -> abandoned i -> cancel_read i) ->
+    (* server-side fact (C04 a + abort wakes the execute() task) *)
+    (forall i, 1 <= i -> i <= n -> cancel_read i -> status i <> HUnfinished) ->
+    1 <= n -> abandoned 1 ->
+    forall j, 1 <= j -> j <= n -> status j <> HUnfinished.
+Proof. exact cascade_partial. Qed.
+
 Theorem C04_reuse_after_cancel_refuted :
   reuse_only_after_completion b1_cfg b1_ops (tr_of b1_cfg b1_ops) = false
   /\ c08_core_ok b1_cfg b1_ops (tr_of b1_cfg b1_ops) = false
@@ -16,4 +66,23 @@ Theorem C04_reuse_after_cancel_refuted :
   /\ nth 10 (tr_of b1_cfg b1_ops) [] = [OHPolled 1; OExecPending 1; OGauges 0 0].
 Proof. exact b1_witness. Qed.
 
+(* non-vacuity: a running handler whose request is cancelled is dropped at its next poll, and the
+   queued response of a finished-but-unwritten one is never written *)
+Example C04_nonvacuous :
+  fst (srun (mkcfg None 1) t_unbounded
+        [OCtl (TDeliver (MReq 1 1000 7 5)); OPoll; OHandlerPoll 0 SRun; OCtl (TDeliver (MCancel 1 7)); OPoll;
+         OHandlerPoll 0 (SFinish 3); OPoll])
+  = [[OGauges 0 0];
+     [OCalls [CNext (RItem (MReq 1 1000 7 5)); CReady TOk; CFlush TOk]; OYield 0 1 1000 7 5; OGauges 1 1];
+     [OHPolled 0; OExecPending 0; OGauges 1 1];
+     [OGauges 1 1];
+     [OCalls [CNext (RItem (MCancel 1 7)); CNext RPending; CReady TOk; CFlush TOk]; OPending; OGauges 0 0];
+     [OHDropped 0; OExecReady 0; OGauges 0 0];
+     [OCalls [CNext RPending; CReady TOk; CFlush TOk]; OPending; OGauges 0 0]].
+Proof. vm_compute. reflexivity. Qed.
+
+Print Assumptions C04_cancel_stops_tracked.
+Print Assumptions C04_aborted_never_progresses.
+Print Assumptions C04_cancel_unknown_frame.
+Print Assumptions C04_cascade_partial.
 Print Assumptions C04_reuse_after_cancel_refuted.
